@@ -1,11 +1,11 @@
 package rules
 
 import (
-	"golang.org/x/tools/go/packages"
 	"go/ast"
 	"go/constant"
 	"go/token"
 	"go/types"
+	"golang.org/x/tools/go/packages"
 	"sort"
 	"strings"
 
